@@ -148,7 +148,7 @@ func Uint32OfNumber(n float64) float64 {
 	if m < 0 {
 		m += two32
 	}
-	return m
+	return m + 0 // +0, never -0
 }
 
 // ToUint32 is 9.6.
